@@ -26,6 +26,7 @@ META = {
     "trusted_base": ["ciborium 0.2.x: from_reader bounds nesting at 256 and never panics; into_writer into a Vec<u8> is infallible",
                      "std contracts of Vec::remove / Index / Option::unwrap", "rustc's #[track_caller] / `!` classification of callees"],
 }
+META["decides"] += " (R-3: a budgeted edge counts as decrementing only if every call site on it decrements; closures built in the cycle carry their creator's budget; R-2 discharges small-constant + Vec::len() overflow asserts.)"
 
 ASV = "common::AsCborValue"
 READ = "common::read_to_value"
